@@ -6,7 +6,7 @@ CONSTANTS
   MaxDup = 1
   MaxRestart = 1
   Idem = 1
-  MaxOps = 11
+  MaxOps = 13
 CONSTRAINT Bound
 VIEW View
 INVARIANT NeverBoth
